@@ -16,15 +16,18 @@ META = dict(
           "guarantee (SetOwner gets two different existing OutRecs) the owner graph stays a forest, no owner index dangles and every "
           "owner-chasing loop terminates within the model's fuel (the statement without the guarantee is refuted, witness replayed on the "
           "real SetOwner); for ALL ownership states and all answers of the geometric tests every parent the tree uses passed the code's own "
-          "Path1InsidePath2 and bounds.Contains tests for that pair; IsHole = even non-zero Level.  Tied to the code by exact comparison on "
+          "Path1InsidePath2 and bounds.Contains tests for that pair; CheckSplitOwner terminates in every forest state without a cycle of "
+          "point-less OutRecs through split lists (refuted without that hypothesis, witness replayed on the real function: stack "
+          "overflow); IsHole = even non-zero Level.  Tied to the code by exact comparison on "
           "enumerated/random owner-edit sequences executed by the real functions and by comparing the real BuildTree64 with the model on "
           "the dumped ownership state of whole runs (one and the same model shape must agree on every state).  The geometric content "
           "(paths equal to the Paths run, child inside parent, siblings disjoint, orientation alternating with depth, areas equal) is "
           "validated by an extracted exact checker on nested / touching / horizontally joined / lattice-rectangle inputs for PolyTree64 and "
           "PolyTreeD; nesting failures are attributed to the responsible defect of the owner search from the dumped ownership state."),
     note=("Trusted: Coq kernel, extraction, OCaml driver, C++ harness with private access, generators, the Python classifier of nesting "
-          "failures (naming only).  Proved: ownership bookkeeping for all histories, acceptance tests of every tree parent.  NOT proved: "
-          "termination of CheckSplitOwner/RecursiveCheckOwners (the model reports FUEL, never seen), that every OutRec with a path is "
+          "failures (naming only).  Proved: ownership bookkeeping for all histories, acceptance tests of every tree parent, termination "
+          "of CheckSplitOwner.  NOT proved: termination of the RecursiveCheckOwners recursion as a whole (the model reports FUEL, never "
+          "seen), that the sweep never builds a cycle of point-less OutRecs through split lists, that every OutRec with a path is "
           "placed exactly once, that Path1InsidePath2 agrees with true containment, that the accepted parent is the innermost container, "
           "sibling disjointness, depth <-> orientation (validated by the exact checker on generated inputs, where the unrepaired owner "
           "search fails: see triage/C04.md)."),
@@ -89,6 +92,7 @@ def enum_ops():
 
 
 REFUTED_WITNESS = 'OPS 1 1 S 0 0'        # C04_owner_forest_refuted_without_wf: [OpNew; OpSetOwner 0 0]
+REFUTED_WITNESS2 = 'OPS 2 3 P 0 0 A 0 0 K 1 0'      # OutRec 0: pts = nullptr, splits = [0]; CheckSplitOwner(or_1, or_0->splits)
 
 
 def phase_ops(ctx, env, n):
@@ -100,6 +104,15 @@ def phase_ops(ctx, env, n):
     if w != wm or ': 0 ;' not in w:
         ctx.violation('tie.owner-ops', 'the witness of C04_owner_forest_refuted_without_wf (SetOwner(x, x) makes x own itself) is not reproduced '
                       'by the real SetOwner: C++ %s / model %s' % (w[:120], wm[:120]), replay=dict(kind='ops', line=REFUTED_WITNESS, cpp=w, model=wm), nofail=True)
+    # the witness of C04_check_split_terminates_refuted_pointless_cycle on the real CheckSplitOwner: OutRec 0 has no points and
+    # its split list contains itself -> unbounded recursion (stack overflow) in the code, out of fuel in the model
+    p2 = vf.run_lines(env.exes['owner'], [REFUTED_WITNESS2], timeout=60)
+    m2 = vf.run_lines(env.oracle, [REFUTED_WITNESS2], timeout=60).stdout.strip()
+    ctx.cov['refuted_witness2_replayed'] = dict(line=REFUTED_WITNESS2, cpp_returncode=p2.returncode, model=m2)
+    if p2.returncode == 0 or not m2.endswith('HANG'):
+        ctx.violation('tie.owner-ops', 'the witness of C04_check_split_terminates_refuted_pointless_cycle (a point-less OutRec whose split list '
+                      'contains itself) is not reproduced: real CheckSplitOwner rc=%s %s / model %s' % (p2.returncode, p2.stdout.strip()[:80], m2[:80]),
+                      replay=dict(kind='ops', line=REFUTED_WITNESS2, cpp=p2.stdout.strip(), model=m2), nofail=True)
     lines = enum_ops() + [rand_ops(rng) for _ in range(n)]
     a, fa = vf.par_lines(env.exes['owner'], lines, timeout=120)
     if fa:
@@ -377,6 +390,30 @@ def _split_closure(st, a):
             if r >= 0:
                 out.add(r); todo.append(r)
     return out
+
+
+def _pointless_cycle(st):
+    """a cycle s -> s2 (s2 in s.splits) among OutRecs without points"""
+    n = len(st['pts'])
+    color = [0] * n
+    for root in range(n):
+        if st['pts'][root] or color[root]:
+            continue
+        stack = [(root, 0)]
+        color[root] = 1
+        while stack:
+            x, j = stack[-1]
+            nxt = [y for y in st['splits'][x] if 0 <= y < n and not st['pts'][y]]
+            if j < len(nxt):
+                stack[-1] = (x, j + 1)
+                y = nxt[j]
+                if color[y] == 1:
+                    return True
+                if color[y] == 0:
+                    color[y] = 1; stack.append((y, 0))
+            else:
+                color[x] = 2; stack.pop()
+    return False
 
 
 def classify_nesting(env, c, ct, fr, pc, rs, prec, nodes, k):
@@ -683,6 +720,18 @@ def phase_tie_tree(ctx, env, cases, label, combos=None):
         if degenerate:
             ctx.count('tie_tree_skipped_degenerate_bounds')
             continue
+        # hypothesis of C04_check_split_terminates on the states the sweep really produces: no chain of point-less OutRecs
+        # through split lists returns to itself
+        st = parse_tree_answer(line)
+        if st is not None:
+            ctx.count('states_checked_for_pointless_split_cycles')
+            if _pointless_cycle(st):
+                ci, ct, fr, pc, rs = jobs[k]
+                ctx.violation('owner.pointless-split-cycle', '%s/%s %s: the sweep left a cycle of point-less OutRecs through split lists '
+                              '(CheckSplitOwner can recurse without bound, C04_check_split_terminates_refuted_pointless_cycle)'
+                              % (CT[ct], FR[fr], cases[ci]['kind']),
+                              replay=dict(kind='case', case=dict(S=cases[ci]['S'], O=cases[ci].get('O', []), C=cases[ci]['C']),
+                                          ct=ct, fr=fr, pc=pc, rs=rs, prec=None, key='owner.pointless-split-cycle'), nofail=True)
         ctx.hist('state_outrecs', min(n, 40) // 4 * 4)
         ctx.count('states_with_splits', 1 if nsplit else 0)
         ml.append(parts[0]); midx.append((k, parts[1]))
